@@ -1,5 +1,6 @@
 import NiftyVerif.Core.Proto
 import NiftyVerif.Model.Harmonic
+import NiftyVerif.Model.HarmonicSHT
 open Lean NiftyVerif.Proto NiftyVerif.Harmonic
 
 /-!
@@ -231,9 +232,33 @@ def handleGeom (j : Json) : Json :=
     let h1 := rgDistance true n1 d1
     let h2 := rgDistance true n2 d2
     let h3 := rgDistance true n3 d3
-    let ks : List Rat := (allIdx 1 n1 n2 n3 1).map fun i => kAxisSq n1 h1 i.j1 + kAxisSq n2 h2 i.j2 + kAxisSq n3 h3 i.j3
+    let ks : List Rat := (allIdx 1 n1 n2 n3 1).map (kSq n1 n2 n3 h1 h2 h3)
     jObj [("dvol_pos", jRat (rgDvol false dims)), ("dvol_harm", jRat (rgDvol true dims)), ("ksq", jRats ks)]
   | _, _ => jErr "bad-args"
+
+/-- SHTOperator re-packing (`_slice_h2p` / `_slice_p2h`) over exact rationals; the spherical-harmonic values at the
+    pixel centres and the constants √2, √½, 1/√(4π) are shipped by the harness as the floats it computed (class F/T) -/
+def handleSht (j : Json) : Json :=
+  match fStr? j "dir", fNat? j "L", fNat? j "M", fNat? j "npix", (field? j "yre").bind (listOf? ratList?),
+        (field? j "yim").bind (listOf? ratList?), fRat? j "r2", fRat? j "rh", fRat? j "c", fRatList? j "x" with
+  | some dir, some L, some M, some npix, some yre, some yim, some r2, some rh, some c, some xs =>
+    if yre.length != L + M || yim.length != L + M then jErr "ValueError" else
+    let yreA := (yre.map List.toArray).toArray
+    let yimA := (yim.map List.toArray).toArray
+    let cfg : ShtCfg Rat :=
+      { L := L, M := M, npix := npix,
+        yre := fun k p => (yreA.getD k #[]).getD p 0, yim := fun k p => (yimA.getD k #[]).getD p 0,
+        r2 := r2, rh := rh, c := c }
+    let xa := xs.toArray
+    let x : Nat → Rat := fun i => xa.getD i 0
+    if dir == "h2p" then
+      if xs.length != L + 2 * M then jErr "ValueError" else
+      jObj [("y", jRats ((List.range npix).map (sliceH2P cfg x)))]
+    else if dir == "p2h" then
+      if xs.length != npix then jErr "ValueError" else
+      jObj [("y", jRats ((List.range (L + 2 * M)).map (sliceP2H cfg x)))]
+    else jErr "bad-op"
+  | _, _, _, _, _, _, _, _, _, _ => jErr "bad-args"
 
 def handle (j : Json) : Json :=
   match fStr? j "op" with
@@ -241,6 +266,7 @@ def handle (j : Json) : Json :=
   | some "backend" => handleBackend j
   | some "smooth" => handleSmooth j
   | some "geom" => handleGeom j
+  | some "sht" => handleSht j
   | _ => jErr "bad-op"
 
 def main : IO Unit := run handle
